@@ -91,9 +91,7 @@ func (w *World) checkImage(data []byte, exp *RState, oracle, label string) {
 		}
 		return nil // default order
 	}}
-	if w.CBMask&CBFramed != 0 {
-		cb.AfterItemRead = unframeAfterRead
-	}
+	w.imageCallbacks(&cb, false)
 	st, err := gkvlite.NewStoreEx(f, cb)
 	if err != nil {
 		if len(exp.Colls) == 0 && exp.End == 0 && strings.Contains(err.Error(), "couldn't find roots") {
